@@ -425,6 +425,19 @@ func c01Body(c *ev.Ctx) {
 		}
 		r.run("BN254 compiled InsertionMbuCircuit, hint adversary bound 1", cases)
 	}
+	// the same entry point after other dimensions were compiled in this process (a non-initial state of
+	// the compiler path): dimensions whose textual concatenations coincide, (1,12) then (11,2)
+	{
+		bnInsertionSys(1, 12)
+		hc := c01FullCases(11, 2, true)
+		if len(hc) > 5 {
+			hc = hc[:5]
+		}
+		for i := range hc {
+			hc[i].Dev = 0
+		}
+		r.run("BN254 compiled InsertionMbuCircuit (11,2) after (1,12) was compiled in the same process", hc)
+	}
 	r.finish("C01")
 	c.Set("rule", "cases = inputs of the circuit/gadget (enumerated completely over F_47/F_5(/F_7), over all leaf-vector states x operation menu on BN254); non-trivial = reference relation holds (valid append); every case is decided by the implementation (R1CS search with all hint values / gnark engine) and by the reference relation")
 	c.Assume("BN254 values range over the alphabets {0,1,r-1} (+ boundary indices); whole-field exhaustiveness is over F_5, F_7 (thorough), F_47")
